@@ -1017,8 +1017,8 @@ class TransactionBuilder:
                     tmp.update(_dfs(s))
             return tmp
 
-        if self.native_scripts:
-            for script in self.native_scripts:
+        for script in self.all_scripts:
+            if isinstance(script, NativeScript):
                 results.update(_dfs(script))
 
         return results
